@@ -548,7 +548,30 @@ type c09Want struct {
 	Malformed bool // the bytes are not a valid identifier of the protocol
 	Known     bool // the height is stored
 	InBounds  bool // the identifier addresses data inside the stored square
-	BuildOK   bool // the unvalidated accessor can build the answer
+	BuildOK   bool // the stored square can answer it
+	Refused   bool // well formed on the wire, yet the implementation's ReadFrom / Validate refuses it
+}
+
+// c09WellFormed: the request grammar of the five protocols, written down independently of share/shwap.
+func c09WellFormed(p string, req []byte) bool {
+	u := func(b []byte) (v uint64) {
+		for _, x := range b {
+			v = v<<8 | uint64(x)
+		}
+		return
+	}
+	size := map[string]int{"PEds": 8, "PRow": 10, "PSample": 12, "PNd": 37, "PRange": 16}[p]
+	if len(req) != size || u(req[:8]) == 0 {
+		return false
+	}
+	switch p {
+	case "PNd":
+		ns, err := libshare.NewNamespaceFromBytes(req[8:37])
+		return err == nil && ns.ValidateForData() == nil
+	case "PRange":
+		return u(req[8:12]) < u(req[12:16])
+	}
+	return true
 }
 
 func (h *c09H) squareAt(height uint64) *c09Square {
@@ -567,8 +590,17 @@ func (h *c09H) expect(p string, req []byte) (w c09Want, id request, sq *c09Squar
 		w.Malformed = true
 		return
 	}
-	if _, err := id.ReadFrom(bytes.NewReader(req[:n])); err != nil || id.Validate() != nil {
+	// well-formedness is decided from the wire format alone, not by the code under test: a non-zero height, any 16-bit
+	// row / column, a namespace go-square accepts for data, from < to
+	wf := c09WellFormed(p, req[:n])
+	_, rerr := id.ReadFrom(bytes.NewReader(req[:n]))
+	implOK := rerr == nil && id.Validate() == nil
+	if !wf {
 		w.Malformed = true
+		return
+	}
+	if !implOK {
+		w.Refused = true // a well-formed request the implementation's decoder / Validate turns down
 		return
 	}
 	sq = h.squareAt(id.Height())
@@ -867,6 +899,10 @@ func (h *c09H) tryF(p, fam string, req []byte, limit int64, closeWrite bool, fau
 		h.r.Violation("negative-reservation:"+p, "a negative amount of memory was reserved", replay)
 	}
 	switch {
+	case w.Refused:
+		if closeWrite {
+			h.r.Violation("wellformed-refused:"+p, "a well-formed request is turned down by the identifier's ReadFrom / Validate; the server answered "+out.Class, replay)
+		}
 	case w.Malformed || (w.Known && !w.InBounds):
 		if out.Class == "ok" {
 			h.r.Violation("malformed-served:"+p+":"+fam, "a malformed or out-of-bounds request was answered OK", replay)
@@ -1169,7 +1205,7 @@ func TestVerifC09(t *testing.T) {
 	}
 	h.getter = c09GPlain
 	// ---- random and mutated byte strings
-	for i, n := 0, r.N(1200, 20000); i < n; i++ {
+	for i, n := 0, r.N(900, 20000); i < n; i++ {
 		p := zv.Pick(rng, c09Protos)
 		sq := zv.Pick(rng, h.squares)
 		var req []byte
